@@ -31,3 +31,28 @@ def run(unit, em):
             if not t.startswith('std::vector<unsigned long'):
                 continue
             em.violation(c, unit.text(c, 80), '%s on a tuple of states works by value: if the state occurs at several positions all of them are affected, but a rule identifies a child by its position' % c['q'])
+        # ---- samepos: two positions of one tuple are never compared with each other to take a decision
+        from vfacts import root_path, is_node
+        for n in fn.walk():
+            if n['k'] not in ('BinaryOperator', 'CXXOperatorCallExpr') or n.get('op') not in ('==', '!='):
+                continue
+            ops = n.get('ch') if n['k'] == 'BinaryOperator' else n.get('args')
+            if not ops or len(ops) != 2:
+                continue
+            sub = []
+            for o in ops:
+                so = strip(o)
+                base = idx = None
+                if so is not None and so['k'] == 'CXXOperatorCallExpr' and so.get('op') == '[]' and len(so.get('args', [])) == 2:
+                    base, idx = so['args'][0], so['args'][1]
+                elif so is not None and so['k'] == 'CXXMemberCallExpr' and method_name(so) == 'at' and so.get('args') and is_node(so.get('obj')):
+                    base, idx = so['obj'], so['args'][0]
+                if base is None:
+                    break
+                t = unit.ty(strip(base) or base).replace('const ', '')
+                if not t.startswith('std::vector<unsigned long'):
+                    break
+                sub.append((unit.text(strip(base), 0), unit.text(strip(idx), 0)))
+            if len(sub) != 2 or sub[0][0] != sub[1][0] or sub[0][1] == sub[1][1]:
+                continue
+            em.violation(n, unit.text(n, 70), 'two positions of the same child tuple are compared with each other: a rule may legitimately carry one state at several positions (f(s,s) -> t), and each position has to be expanded on its own — skipping or merging on equality loses the combinations in which the positions are filled differently', 'samepos')
